@@ -3,7 +3,7 @@
      iface  := name n name*
      impl   := iface type nstatics (name z)* nmethods method*
      method := name nstmts stmt* expr
-     stmt   := F field expr | S static expr | P tag n expr*
+     stmt   := F field expr | S static expr | P tag n expr* | C tag method expr
      expr   := c z | a | s | f name | t name | + e e | - e e | * e e
      var    := name C type payload | name A type n payload*
      payload:= S n (field z)* | P z
@@ -39,6 +39,7 @@ let stmt () =
   | "F" -> let f = name () in SSetField (f, expr ())
   | "S" -> let n = name () in SSetStatic (n, expr ())
   | "P" -> let tag = name () in let n = num () in SPrint (tag, many n expr)
+  | "C" -> let tag = name () in let m = name () in SCallSelf (tag, m, expr ())
   | t -> raise (Bad ("stmt " ^ t))
 let meth () = let n = name () in let k = num () in let b = many k stmt in let r = expr () in { m_name = n; m_body = b; m_ret = r }
 let impl () =
